@@ -150,19 +150,25 @@ def reference_corrected(fx):
 # ---------------------------------------------------------------------------
 def m2(chk, repo):
     md = repo.module("ceos_alos2.sar_image.metadata")
-    tl = md.func("transform_line_metadata")
-    ov = None
-    for n in tl.own_nodes():
-        if isinstance(n, ast.Dict) and any(const_str(k) == "sensor_acquisition_date" for k in n.keys) and all(const_str(v) is not None for v in n.values):
-            ov = {const_str(k): const_str(v) for k, v in zip(n.keys, n.values)}
-    if ov is None:
-        raise AnalysisError("anchor vanished: dtype_overrides in transform_line_metadata")
-    for k in ("sensor_acquisition_date", "sensor_acquisition_date_microseconds"):
-        chk.require(ov.get(k) == "datetime64[ns]", "C17-M2", f"{md.relpath}:transform_line_metadata", f"{k} is stored as datetime64[ns]",
-                    f"{k} is stored as {ov.get(k)!r}: the microsecond stamp loses resolution", key=f"override:{k}", sample={"variable": k, "dtype": ov.get(k)})
-    ao = md.func("apply_overrides")
-    ok = any(isinstance(c, ast.Call) and norm(c.func) in ("np.array", "np.asarray", "numpy.array") and any(k.arg == "dtype" and norm(k.value) == "dtype" for k in c.keywords) for c in ast.walk(ao.node))
-    chk.require(ok, "C17-M2", f"{md.relpath}:apply_overrides", "overrides convert with np.array(data, dtype=<override>)", "apply_overrides no longer converts with the override dtype", key="apply_overrides")
+    # the conversion chain of both line-time variables, as inferred for transform_line_metadata on both record types
+    from ..records import Layouts
+    from ..schema import flatten
+    from ..shapes_rules import pipelines
+    P = pipelines(repo, Layouts(repo))
+    seen = 0
+    for pipe, names in (("lines:signal", ("sensor_acquisition_date", "sensor_acquisition_date_microseconds")), ("lines:processed", ("sensor_acquisition_date",))):
+        sch = flatten(P.get(pipe))
+        for k in names:
+            d = sch.get(f"/{k}")
+            if d is None:
+                raise AnalysisError(f"{pipe}: variable {k} not found by shape inference; its stored resolution is not decided")
+            seen += 1
+            units = re.findall(r"(?:datetime64|timedelta64)\[(\w+)\]", d)
+            conv = re.findall(r"\|(?:np\.)?(?:array|asarray|astype)\[([^\]\[]*(?:\[\w+\])?)\]", d)
+            ok = bool(units) and units[-1] == "ns" and all(u in ("ns",) for u in units)
+            chk.require(ok, "C17-M2", f"{md.relpath}:transform_line_metadata ({pipe})", f"{k} is stored as datetime64[ns] ({d[d.find('data='):][:90]})",
+                        f"{k} is stored through {conv or 'no datetime64 conversion'} ({d[d.find('data='):][:110]}): the line time is not kept as datetime64[ns] - the microsecond stamp loses resolution / stays an object array",
+                        key=f"override:{k}", sample={"variable": k, "pipeline": pipe, "conversion": conv})
     # unit literals on the attitude time path
     at = repo.module(ATT).func("transform_time")
     units = None
